@@ -20,6 +20,10 @@ import Nitime.Lemmas.CohBounds
 import Nitime.Model.C09Win
 import Nitime.Generated.CacheWin
 import Nitime.Lemmas.C09FloatBand
+import Nitime.Lemmas.C09Out
+import Nitime.Generated.CacheOut
+import Nitime.Lemmas.CohSession
+import Nitime.Generated.SetInput
 
 open Finset ComplexConjugate
 open Nitime.Coh Nitime.C08.Props Nitime.C09 Nitime.Generated
@@ -338,5 +342,75 @@ theorem cache_band_indices_float_eq_exact (R : Rounding) {u : ℚ} (hu0 : 0 ≤ 
     (hub : ∀ k < N / 2 + 1, ub < (1 - u) ^ 3 * ((k : ℚ) * Fs / (N : ℚ)) ∨ (1 + u) ^ 3 * ((k : ℚ) * Fs / (N : ℚ)) < ub) :
     gb (getFreqsR R Fs N) lb (some ub) = gb (Nitime.C05.trueOneSided Fs N) lb (some ub) :=
   float_band_eq_exact_band_of_offgrid R hu0 hu1 h hFs N lb ub hlb hub
+
+/-! ## Round 2: aliasing of results (L8 / L6) and refused `set_input` calls (L7) -/
+
+section Aliasing
+open Nitime.C09.Out
+
+/-- the four `cache_to_*` functions of the CURRENT source bind what they return to an array / dict they allocate
+themselves, fill it with new arrays, and neither write into the cache dict nor hand it to a helper (generated:
+`Generated.CacheOut`; an output array kept with the cache — seeded change C09-11 — re-opens this) -/
+theorem cache_to_results_are_allocated_per_call :
+    CacheOut.coherency = ⟨.fresh, false, true⟩ ∧ CacheOut.relativePhase = ⟨.fresh, false, true⟩ ∧
+    CacheOut.psd = ⟨.fresh, false, true⟩ ∧ CacheOut.phase = ⟨.fresh, false, true⟩ := by decide
+
+/-- the discipline the model runs for a function: its output array is kept with the cache unless the source allocates it -/
+def keepsOutput (o : CacheOut.OutSpec) : Bool := !(o.alloc == .fresh && !o.writesCache && o.entriesNew)
+
+/-- **results never alias the cache**: along every history of `cache_to_coherency` (resp. relative phase, PSD, phase)
+queries of ONE cache — other or equal pair lists, equal or different output shapes — nothing of a result is kept in the
+cache, all results are different arrays, and each result held by the caller shows at the END the values it was
+computed with (which are the dense values: `cache_coherency_eq_dense`, `cache_psd_eq_dense`, …) -/
+theorem results_never_alias_cache (cs : List Call) :
+    (∀ o ∈ [CacheOut.coherency, CacheOut.relativePhase, CacheOut.psd, CacheOut.phase],
+      (run (keepsOutput o) init cs).kept = [] ∧ (ids (run (keepsOutput o) init cs)).Nodup ∧
+      finalViews (run (keepsOutput o) init cs) = cs.map (·.vals)) := by
+  intro o ho
+  have hk : keepsOutput o = false := by
+    obtain ⟨h1, h2, h3, h4⟩ := cache_to_results_are_allocated_per_call
+    simp only [List.mem_cons, List.mem_nil_iff, or_false] at ho
+    rcases ho with rfl | rfl | rfl | rfl <;> simp [keepsOutput, h1, h2, h3, h4]
+  rw [hk]
+  exact Out.results_never_alias_cache cs
+
+-- non-vacuity: three queries, two of equal output shape
+example : finalViews (run (keepsOutput CacheOut.coherency) init [⟨7, [1, 2]⟩, ⟨7, [5, 6]⟩, ⟨3, [9]⟩]) = [[1, 2], [5, 6], [9]] := by
+  decide
+
+end Aliasing
+
+section RefusedSetInput
+open Nitime.CohSession
+
+/-- **SparseCoherenceAnalyzer, any session** of accepted / refused `set_input` calls, `reset()`s and reads: the rate the
+cache is built with (`method['Fs']`: frequencies, `scale_by_freq` normalisation of the spectra, `delay`) is the rate of
+the input ACTUALLY HELD — the last one not refused — or the `'Fs'` the caller fixed.  `G` is any function of that rate
+(the generated `set_input` body is the side condition: raises before writes, accepted calls re-target) -/
+theorem SparseCoherenceAnalyzer_session_rate_follows_held_input (G : ℚ → List ℚ) (inp : Inp) (userFs : Option ℚ)
+    (evs : List Ev) :
+    run G SetInput.sparse (init inp userFs) evs = spec G (hasCheck SetInput.sparse) userFs inp evs := by
+  refine session_reads_from_init G _ (by decide) ?_ inp userFs evs
+  intro new s
+  cases hf : s.fsFromInput <;> simp [SetInput.sparse, exec, retarget, pick, hf]
+
+/-- a refused `set_input` leaves input, rate and memoised results of a SparseCoherenceAnalyzer as they were -/
+theorem SparseCoherenceAnalyzer_refused_set_input_leaves_state_unchanged (new : Inp) (sv : Option Inp) (s : St)
+    (h : (exec true new SetInput.sparse sv s).2 = true) : (exec true new SetInput.sparse sv s).1 = s :=
+  refused_exec_unchanged new _ sv s (by decide) h
+
+/-- … and every cached frequency read in such a session is the DENSE frequency `k·Fs/NFFT` at that rate -/
+theorem session_cached_frequency_eq_dense (Fs : ℂ) (N k : ℕ) : rfftFreq Fs N k = welchFreq Fs N k :=
+  cache_freqs_eq_dense Fs N k
+
+/-- contrast, the order of seeded change C09-10 (swap + refresh `method['Fs']`, check, roll back `self.input` only):
+the analyzer built on a 100 Hz series, after a refused 250 Hz one, estimates at 250 Hz -/
+theorem swap_check_rollback_counterexample :
+    (run (fun fs => [fs]) [.save, .reset, .setInput .new, .writeFs .held, .check] (init ⟨100, 0⟩ none)
+      [.setInput ⟨250, 1⟩ true, .readFreq]).map (·.1) = [[250]] ∧
+    checksFirst [.save, .reset, .setInput .new, .writeFs .held, .check] = false := by
+  decide +kernel
+
+end RefusedSetInput
 
 end Nitime.C09.Props
